@@ -153,10 +153,18 @@ pub fn run(ctx: &Ctx) -> i32 {
                 counts.inc("compiler-product");
                 if let Err(e) = c.validate() {
                     ctx.violation(&format!("compiler output for {origin} fails validate(): {e:?}"), json!({"kind": "program", "program": src}));
+                    continue;
                 }
-                let r = rc::Circuit::from(c);
+                let r = match crate::util::catch(|| rc::Circuit::from(c)) {
+                    Ok(r) => r,
+                    Err(p) => {
+                        ctx.violation(&format!("conversion of the valid compiler output for {origin} to a register circuit panicked: {p}"), json!({"kind": "program", "program": src}));
+                        continue;
+                    }
+                };
                 if let Err(e) = r.validate() {
                     ctx.violation(&format!("converter output for {origin} fails validate(): {e:?}"), json!({"kind": "program", "program": src}));
+                    continue;
                 }
                 if c.gates.len() < 3000 {
                     valid_ssa.push(c.clone());
